@@ -139,6 +139,8 @@ def build(G):
     zone_types(G, with_zones=False)
     G.file(os.path.join(PRELUDE, "hash.rs"))
     G.raw(OWNERS_OK_RS, ("spec", "owners_ok"))
+    G.raw(QMATCH_RS, ("spec", "qmatch"))
+    G.raw(ANSWER_TYPED_RS, ("spec", "answer_typed"))
     G.file(os.path.join(VERIF, "units", "zone_lookup.spec.rs"))
     G.raw(BUILD_SPEC_RS, ("spec", "zone_build spec"))
     T, Z = G.src(TYPES), G.src(ZTYPES)
